@@ -97,6 +97,10 @@ def module_state():
                 continue
             if attr.has(type(v)) or is_const_list(v) or isinstance(v, (int, float)) and not isinstance(v, bool):
                 out["%s.%s" % (name, k)] = v
+            elif isinstance(v, dict) and v and all(isinstance(a, str) and isinstance(b, (int, float, str)) for a, b in v.items()):
+                out["%s.%s" % (name, k)] = tuple(sorted(v.items()))  # a constant table (unit factors, say)
+    # interpreter-wide switches a modelling call could flip: attrs' global "run validators" flag guards every Composition built afterwards
+    out["attr.validators.disabled"] = bool(attr.validators.get_disabled())
     return out
 
 
@@ -157,8 +161,11 @@ class World:
                 d += [c.p.t > 0, c.p.t < 1]
         return d
 
-    def entries(self):
+    def entries(self, fresh_object=False):
         ps, pz = self.ps, self.pz
+        if fresh_object:
+            # a new Pervaporation object over the same membrane and mixture: whatever the long-lived one remembers, this one does not
+            pz = build.pervaporation(ps.mix, self.pz.membrane)
         T, prec, Tp, Pp = ps.T0, ps.prec, ps.Tp, ps.Pp
         nk = dict(n_first=1, n_second=1, m_first=1 if ps.n_curves > 1 else None, m_second=1 if ps.n_curves > 1 else None)
 
@@ -185,6 +192,11 @@ class World:
 
         E = {
             "flux_solver": lambda: pz.calculate_partial_fluxes(T, self.comps[0], prec, Tp, Pp),
+            # the same question under the other activity model, a rejected question, and the public driving-force helper at a state of its own
+            "flux_solver_uniquac": lambda: pz.calculate_partial_fluxes(T, self.comps[0], prec, Tp, Pp, calculation_type="UNIQUAC"),
+            "flux_solver_rejected": lambda: _rejected(lambda: pz.calculate_partial_fluxes(T, self.comps[0], prec, real("Tp_both"), real("Pp_both"))),
+            "driving_force": lambda: pz.get_partial_fluxes_from_permeate_composition(build.perm(real("Pd1")), build.perm(real("Pd2")), build.comp(real("yd"), "weight"),
+                                                                                      self.comps[1], real("Td"), Tp, Pp),
             "permeate_composition": lambda: pz.calculate_permeate_composition(T, self.comps[1], prec, Tp, Pp),
             "separation_factor": lambda: pz.calculate_separation_factor(T, self.comps[0], Tp, Pp, prec),
             "ideal_curve": lambda: pz.ideal_diffusion_curve(T, self.comps, Tp, Pp, prec),
@@ -204,10 +216,17 @@ class World:
         return E, nums
 
 
-def concrete(inp):
-    """real code, real optimiser: arguments deeply unchanged and a repeated call returns identical numbers"""
-    import copy
-    import warnings
+def _rejected(call):
+    """a question the library must reject (both permeate temperature and pressure): the rejection is part of the history, not its end"""
+    try:
+        call()
+    except ValueError:
+        return ()
+    return ("accepted",)
+
+
+def _real_world(inp):
+    """fresh real objects and the entry points as closures over them"""
     mix = realrun.mixture_of(inp)
     mem = realrun.membrane_for(mix)
     curves = realrun.curve_set(mix, 2, "molar")
@@ -216,15 +235,66 @@ def concrete(inp):
     meas = Measurements.from_diffusion_curves_first(curves)
     P0 = (pv.Permeance(0.05), pv.Permeance(0.001))
     args = {"membrane": mem, "mixture": mix, "curves": curves, "conditions": cond, "measurements": meas, "P0": P0}
+    fl = lambda f: [f.alpha] + list(f.a) + list(f.b)
     calls = {
         "flux_solver": lambda: pz.calculate_partial_fluxes(333.15, pv.Composition(0.3, "molar"), 5e-5, 293.15, None),
+        "flux_solver_uniquac": lambda: pz.calculate_partial_fluxes(333.15, pv.Composition(0.3, "molar"), 5e-5, 293.15, None, calculation_type="UNIQUAC"),
+        "flux_solver_rejected": lambda: _rejected(lambda: pz.calculate_partial_fluxes(333.15, pv.Composition(0.3, "molar"), 5e-5, 293.15, 1.0)),
+        "driving_force": lambda: pz.get_partial_fluxes_from_permeate_composition(pv.Permeance(0.04), pv.Permeance(0.003), pv.Composition(0.8, "weight"), pv.Composition(0.6, "weight"),
+                                                                                 318.0, 293.15, None),
+        "permeate_composition": lambda: [pz.calculate_permeate_composition(333.15, pv.Composition(0.5, "weight"), 5e-5, 293.15, None).p],
+        "separation_factor": lambda: [pz.calculate_separation_factor(333.15, pv.Composition(0.3, "molar"), 293.15, None, 5e-5)],
+        "permeance": lambda: [mem.get_permeance(341.0, mix.first_component).value, mem.get_permeance(341.0, mix.second_component).value],
         "ideal_curve": lambda: [tuple(f) for f in pz.ideal_diffusion_curve(333.15, [pv.Composition(0.3, "molar"), pv.Composition(0.5, "weight")], 293.15).partial_fluxes],
-        "fit": lambda: (lambda f: [f.alpha] + list(f.a) + list(f.b))(opt.fit(meas, n=1, m=1, include_zero=True, component_index=1)),
-        "find_best_fit": lambda: (lambda f: [f.alpha] + list(f.a) + list(f.b))(opt.find_best_fit(meas, include_zero=True, component_index=0, n=1, m=1)),
+        "fit": lambda: fl(opt.fit(meas, n=1, m=1, include_zero=True, component_index=1)),
+        "find_best_fit": lambda: fl(opt.find_best_fit(meas, include_zero=True, component_index=0, n=1, m=1)),
         "ideal_iso": lambda: pz.ideal_isothermal_process(2, 0.2, cond).feed_mass,
+        "ideal_noniso": lambda: pz.ideal_non_isothermal_process(cond, 2, 0.2).feed_mass,
+        "nonideal_iso": lambda: pz.non_ideal_isothermal_process(cond, curves, 2, 0.2, initial_permeances=P0, n_first=1, n_second=1, m_first=1, m_second=1, include_zero=True).feed_mass,
         "nonideal_noniso": lambda: pz.non_ideal_non_isothermal_process(cond, curves, 2, 0.2, initial_permeances=P0, n_first=1, n_second=1, m_first=1, m_second=1, include_zero=True).feed_mass,
         "non_ideal_curve": lambda: [tuple(f) for f in pz.non_ideal_diffusion_curve(curves, 330.0, pv.Composition(0.3, "molar"), 0.05, 1, 293.15, None, P0, 5e-5, "NRTL", 1, 1, 1, 1, True).partial_fluxes],
+        "measurements_first": lambda: [v for m_ in Measurements.from_diffusion_curves_first(curves) for v in (m_.x, m_.t, m_.p)],
     }
+    return args, calls
+
+
+def concrete_history(inp):
+    """Y; X; Y; X on one set of real objects: both X return bit for bit what X returns on fresh objects, and nothing reachable from the
+    shared arguments, the built-in objects or the interpreter-wide switches has changed"""
+    import warnings
+    x, y = inp.get("x"), inp.get("y")
+    num = lambda r: repr(numpy.asarray(r, dtype=float).tolist())
+    bad = []
+    attr.validators.set_disabled(False)  # the replay starts from the interpreter's initial switches
+    with warnings.catch_warnings():
+        warnings.simplefilter("ignore")
+        _, fresh = _real_world(inp)
+        if x not in fresh or y not in fresh:
+            return {"ok": True, "detail": "no real-code twin of %s / %s" % (x, y), "inputs": inp}
+        mods = snap_modules()
+        want = num(fresh[x]())
+        args, calls = _real_world(inp)
+        before = snapshot(args)
+        calls[y]()
+        first = num(calls[x]())
+        calls[y]()
+        third = num(calls[x]())
+        if first != want or third != want:
+            bad.append("%s after [%s, %s] on shared objects returns %s, on fresh objects %s" % (x, x, y, third[:120], want[:120]))
+        d = diff(before, snapshot(args)) + diff(mods, snap_modules())
+        if d:
+            bad.append("the history %s; %s; %s changed shared arguments / module state / interpreter switches: %s" % (x, y, x, "; ".join(d[:2])))
+    attr.validators.set_disabled(False)
+    return {"ok": not bad, "detail": "; ".join(bad[:2]), "inputs": inp}
+
+
+def concrete(inp):
+    """real code, real optimiser: arguments deeply unchanged and a repeated call returns identical numbers"""
+    import copy
+    import warnings
+    args, calls = _real_world(inp)
+    mix, mem, curves, cond = args["mixture"], args["membrane"], args["curves"], args["conditions"]
+    pz = Pervaporation(mem, mix)
     curves1 = realrun.curve_set(mix, 1, "weight")
     calls.update({
         "non_ideal_curve_single": lambda: [tuple(f) for f in pz.non_ideal_diffusion_curve(curves1, 330.0, pv.Composition(0.3, "weight"), 0.05, 1, None, None, None, 5e-5, "NRTL", 1, 1).partial_fluxes],
@@ -233,6 +303,7 @@ def concrete(inp):
     })
     want = inp.get("entry")
     bad = []
+    attr.validators.set_disabled(False)
     with warnings.catch_warnings():
         warnings.simplefilter("ignore")
         for name, f in calls.items():
@@ -285,6 +356,7 @@ def frame(job, mode, n_curves, names):
             state = {}
 
             def run():
+                attr.validators.set_disabled(False)  # every explored path starts from the interpreter's initial switches
                 state["before"] = snapshot(w.args)
                 state["mods"] = snap_modules()
                 r1 = f()
@@ -332,27 +404,54 @@ def histories(job, mode, pairs):
         cnt = flux.LoopCounter(pt, 1)
         from pyvaporation.pervaporation.pervaporation import Pervaporation as P_
         orig_cpf = P_.calculate_partial_fluxes
-        if any("flux_solver" in p for p in pairs):
+        if any(nm.startswith("flux_solver") or nm == "driving_force" for p in pairs for nm in p):
             pt.set(P_, "calculate_partial_fluxes", lambda self, *a, **k: (cnt.reset(), orig_cpf(self, *a, **k))[1])
         else:
             w.ps.install(pt, validator="real", flux="stub", heats=False, fit="stub", clamp="real")
+        solver_history = any(nm.startswith("flux_solver") or nm == "driving_force" for p in pairs for nm in p)
+        fresh = w.entries(fresh_object=True)[0] if solver_history else None
         for x, y in pairs:
             tag = "C20/history/%s/%s_then_%s" % (mode, x, y)
             n = 0
-            for leaf in job.explore(lambda: (E[x](), E[y](), E[x]()), dom, timeout_ms=100, max_paths=200):
+            RH, hin = "vf.props.C20:concrete_history", {"x": x, "y": y}
+            state = {}
+
+            def run(x=x, y=y):
+                attr.validators.set_disabled(False)  # every explored path starts from the interpreter's initial switches
+                state["mods"] = snap_modules()
+                state["before"] = snapshot(w.args)
+                go = lambda nm, table=E: (cnt.reset(), table[nm]())[1]  # every call of the history gets the whole loop budget
+                if fresh is not None:
+                    go(y)  # the history starts with the *other* question, so that the first X already has something behind it
+                r = go(x), go(y), go(x)
+                if fresh is not None:
+                    # ... and the last call once more on a Pervaporation object that has no history at all
+                    state["fresh"] = go(x, fresh)
+                return r
+
+            for leaf in job.explore(run, dom, timeout_ms=100, max_paths=200):
                 if leaf.kind != "returned":
                     continue
                 n += 1
                 if n > 12:
                     break
+                d = diff(state["before"], snapshot(w.args)) + diff(state["mods"], snap_modules())
+                job.judge("%s/leaf%d/shared_state_untouched" % (tag, n), not d, "; ".join(d[:2]), RH, hin)
                 r1, _, r3 = leaf.value
+                if fresh is not None:
+                    a, b = nums(r1), nums(state["fresh"])
+                    if len(a) == len(b) and a:
+                        cg = sorted({nm for (_, nm, _) in Pure.tab.values()})
+                        job.prove("%s/leaf%d/as_on_an_object_without_history" % (tag, n), dom + leaf.conds(), [lift(p) != lift(q) for p, q in zip(a, b)], RH, hin,
+                                  fallback=[hin], timeout=20, congruence=cg)
                 a, b = nums(r1), nums(r3)
                 if len(a) != len(b):
-                    job.record("%s/leaf%d" % (tag, n), "violated", "result shapes differ", replay={"fn": R_, "inputs": {"entry": "all"}})
+                    job.record("%s/leaf%d" % (tag, n), "violated", "result shapes differ", replay={"fn": RH, "inputs": hin})
                 else:
                     cg = sorted({nm for (_, nm, _) in Pure.tab.values()})
-                    job.prove("%s/leaf%d" % (tag, n), dom + leaf.conds(), [lift(p) != lift(q) for p, q in zip(a, b)], R_, {"entry": "all"},
-                              fallback=[{"entry": "all"}], timeout=20, congruence=cg)
+                    job.prove("%s/leaf%d" % (tag, n), dom + leaf.conds(), [lift(p) != lift(q) for p, q in zip(a, b)], RH, hin,
+                              fallback=[hin], timeout=20, congruence=cg)
+            attr.validators.set_disabled(False)
             if n == 0:
                 job.vacuity["failed"].append(tag)
 
@@ -434,9 +533,13 @@ def jobs(tier):
                 js.append(("frame_%s_c%d_%s" % (mode, nc, g[0]), "frame", {"mode": mode, "n_curves": nc, "names": g}))
     pairs = [("fit", "find_best_fit"), ("find_best_fit", "nonideal_iso"), ("nonideal_noniso", "fit"), ("non_ideal_curve", "nonideal_noniso"),
              ("ideal_curve", "measurements_first")]
+    # hidden state on the long-lived objects: the other activity model, a rejected question, the public helper at a state of its own
+    solver_pairs = [("flux_solver", "flux_solver_uniquac"), ("driving_force", "flux_solver"), ("flux_solver", "flux_solver_rejected"), ("flux_solver_uniquac", "flux_solver")]
     if tier == "thorough":
         names = ["flux_solver", "ideal_curve", "non_ideal_curve", "fit", "find_best_fit", "ideal_iso", "ideal_noniso", "nonideal_iso", "nonideal_noniso"]
         pairs = [(a, b) for a in names for b in names if a != b]
     for i in range(0, len(pairs), 2):
         js.append(("history_%d" % i, "histories", {"mode": "ptemp", "pairs": pairs[i:i + 2]}))
+    for i in range(0, len(solver_pairs), 2):
+        js.append(("history_solver_%d" % i, "histories", {"mode": "ptemp", "pairs": solver_pairs[i:i + 2]}))
     return js
